@@ -269,7 +269,7 @@ def build_and_audit(prop, thorough=False):
 
 
 # which property an extractor problem belongs to (prefix of the problem text)
-GEN_OWNER = {"natives extractor": "C09", "predtable extractor": "C02", "syntaxtab extractor": "C14"}
+GEN_OWNER = {"natives extractor": "C09", "predtable extractor": "C02", "syntaxtab extractor": "C14", "libsrc extractor": "C19"}
 
 
 # ----------------------------------------------------------------------------
